@@ -3,7 +3,7 @@ from e2 import E2
 from props.C01 import shapes, STUBS, CODECS
 FILES = ['src/writer/file_writer.c', 'src/writer/row_group_writer.c', 'src/writer/column_writer.c', 'src/writer/page_writer.c', 'src/thrift/parquet_types.c',
          'src/thrift/thrift_encode.c', 'src/util/crc32.c', 'src/compression/snappy.c', 'src/compression/lz4.c']
-BUDGET = {'quick': 1800, 'thorough': 3600}
+BUDGET = {'quick': 840, 'thorough': 3600}
 
 
 def obligations(tier):
